@@ -254,7 +254,73 @@ def check_has(fx, rep, mg):
     rep.check(lookups >= 1, 'R6', 'has/looks-at-the-keys', b.loc(), '%d lookup(s) on the map payload' % lookups, 'has(m.f) performs no lookup on the map payload')
 
 
+def check_key_conversions(fx, rep):
+    rep.rule('R7', 'Value <-> Key conversions keep kind and payload (a map literal holds exactly the keys written; ranging over a map yields its keys)')
+    K, V = 'cel_interpreter::objects::Key', 'cel_interpreter::objects::Value'
+    tables = {
+        '<%s as std::convert::TryInto<%s>>::try_into' % (V, K): ({'Int': 'Int', 'UInt': 'Uint', 'String': 'String', 'Bool': 'Bool'}, K),
+        '<%s as std::convert::From<&%s>>::from' % (V, K): ({'Int': 'Int', 'Uint': 'UInt', 'String': 'String', 'Bool': 'Bool'}, V),
+        '<%s as std::convert::From<%s>>::from' % (V, K): ({'Int': 'Int', 'Uint': 'UInt', 'String': 'String', 'Bool': 'Bool'}, V),
+    }
+    for path, (want, target) in tables.items():
+        b = fx.bodies.get(path)
+        if b is None:
+            raise F.Lost('conversion %s not found' % path)
+        rep.analysed(b)
+        pv = F.Prov(b, transparent={k: v for k, v in F.TRANSPARENT.items() if k not in ('std::convert::Into::into', 'std::convert::From::from', 'std::convert::TryFrom::try_from', 'std::convert::TryInto::try_into')})
+        got = {}
+        for _, _, st in b.stmts():
+            if st['k'] == 'Assign' and st['rv']['k'] == 'Aggregate' and st['rv'].get('adt') == target and st['rv']['ops']:
+                for x in pv.of_operand(st['rv']['ops'][0]):
+                    y = x
+                    while y[0] == 'call' and y[1] in ('std::clone::Clone::clone',) and y[2]:
+                        y = y[2][0]
+                    src = y[1][2] if y[0] == 'f' and y[2] in (0, '0') and y[1][0] == 'dc' and y[1][1] == ('param', 1) else '? ' + F.term_str(x)[:50]
+                    got.setdefault(src, set()).add(st['rv']['variant'])
+        casts = [st for _, _, st in b.stmts() if st['k'] == 'Assign' and st['rv']['k'] == 'Cast' and st['rv']['kind'] in ('IntToInt', 'FloatToInt', 'IntToFloat')]
+        # a kind table has nothing to compute: any call besides a clone of the payload is a conversion in disguise
+        extra = sorted({F.norm_callee(t) or '?' for bi, t in b.calls() if (F.norm_callee(t) or '') not in ('std::clone::Clone::clone',)})
+        okk = {k: sorted(v) for k, v in got.items()} == {k: [v] for k, v in want.items()} and not casts and not extra
+        short = re.sub(r'cel_interpreter::objects::', '', path)
+        rep.check(okk, 'R7', 'conversion/%s' % short, b.loc(), 'variant table %s' % want,
+                  '%s maps %s%s%s, expected %s with the payload unchanged' % (short, {k: sorted(v) for k, v in got.items()}, ' with numeric casts' if casts else '', (' and calls %s' % extra) if extra else '', want))
+
+
+def check_member(fx, rep):
+    rep.rule('R8', 'm.k: the map entry decides first; the method-reference fallback is built only when the key is absent (so m.k agrees with m[k], `in`, has())')
+    b = fx.body('cel_interpreter::objects::Value::member')
+    rep.analysed(b)
+    pv = F.Prov(b)
+    fbs = [bi for bi, j, st in b.stmts() if st['k'] == 'Assign' and st['rv']['k'] == 'Aggregate' and st['rv'].get('adt') == 'cel_interpreter::objects::Value' and st['rv'].get('variant') == 'Function']
+    gets = [bi for bi, t in b.calls() if F.norm_callee(t) in ('std::collections::HashMap::get', 'cel_interpreter::objects::Map::get') and MAPTY.search(t['arg_tys'][0] + ' ' + t['arg_tys'][0].replace('&', ''))] or \
+           [bi for bi, t in b.calls() if F.norm_callee(t) in ('std::collections::HashMap::get', 'cel_interpreter::objects::Map::get')]
+    rep.check(len(gets) >= 1, 'R8', 'member/looks-up-the-key', b.loc(), '%d lookup(s)' % len(gets), 'Value::member performs no map lookup')
+    sw = []
+    for bi, blk in enumerate(b.blocks):
+        t = blk['term']
+        if t['k'] != 'SwitchInt':
+            continue
+        dl = F.op_local(t['discr'])
+        for st in blk['stmts']:
+            if st['k'] == 'Assign' and st['rv']['k'] == 'Discriminant' and not st['place'].get('p') and st['place']['l'] == dl:
+                ts = pv.of_operand({'k': 'Copy', 'place': st['rv']['place']})
+                if any(F.term_contains(x, lambda y: y[0] == 'call' and y[1] in ('std::collections::HashMap::get', 'cel_interpreter::objects::Map::get')) for x in ts):
+                    some_t = [k for v, k in t['arms'] if int(v) == 1]
+                    none_t = [k for v, k in t['arms'] if int(v) == 0]
+                    sw.append((bi, some_t, none_t))
+    for fb in fbs:
+        okk = False
+        for bi, some_t, none_t in sw:
+            if b.dominates(bi, fb) and none_t and fb in b.reachable_from(none_t) and not (some_t and fb in b.reachable_from(some_t)):
+                okk = True
+        rep.check(okk, 'R8', 'member/function-only-when-key-absent', b.loc(), 'Value::Function is built on the None edge of the lookup only',
+                  'Value::member builds the method reference without having found the key absent: {\'size\': 7}.size is a function while m[\'size\'] is 7')
+    rep.check(len(fbs) >= 1, 'R8', 'member/fallback-found', b.loc(), 'method-reference fallback present', 'no Value::Function fallback found in Value::member (anchor lost)')
+
+
 def run(fx, rep):
+    check_key_conversions(fx, rep)
+    check_member(fx, rep)
     from .report import producer_rules
     producer_rules(fx, rep, 'producer rule: index, `in`, select and list/map literal nodes are built from their own children in source order (C04 R3/R7/R8/R9)', [('c04', 'C04', '^(R3/visit_Index/|R3/visit_relation/|R7/visit_(Index|relation|Select|CreateList|CreateStruct)/|R8/|R9/)')], 20)
     mg = 'cel_interpreter::objects::Map::get'
@@ -266,4 +332,5 @@ def run(fx, rep):
     rep.floor('R1', 9, '(raw: Map::get x2, member(); via Map::get: index x4, @in, contains())')
     rep.floor('R2', 6)
     rep.floor('R6', 2)
+    rep.floor('R7', 3)
     rep.floor('R3', 9)
